@@ -18,7 +18,9 @@ EXPLANATION = (
     "truncates to the shorter operand) a refusal site precedes every such operation. R5m: in KZG10::commit and "
     "KZG10::open the TooManyCoefficients refusal is conditioned on a size observation (degree) of the polynomial that "
     "was handed in, not only of an object derived from it (the witness has one coefficient less, so a check on the "
-    "witness alone admits a polynomial one beyond the limit). ERR-PROPAGATES: the Err payload "
+    "witness alone admits a polynomial one beyond the limit). R5s: along open -> batch_open -> open_combinations and "
+    "check -> batch_check -> check_combinations of every scheme, each Error variant constructible under the earlier "
+    "entry point is constructible under the later one (siblings agree on what they can refuse). ERR-PROPAGATES: the Err payload "
     "of every call to a crate function returning Result<_, Error> inside these entry points can reach the caller's "
     "outcome. For the schemes that refuse by panic (MultilinearPC) the aborting assertion must depend on the request. "
     "Which side of each numeric boundary is refused, and that in-domain requests never abort, are not decided.")
@@ -128,6 +130,21 @@ def run(rep, ctx, tier):
         b = f.find1(**find)
         if b is not None:
             R5.check_measured(rep, ctx, "R5m", key, b, None, "TooManyCoefficients", idx, "polynomial", g=graphs.get((b.id, None)))
+    # R5s: what `open` can refuse, `batch_open` can refuse, and what that can refuse, `open_combinations` can refuse
+    # (and likewise along check -> batch_check -> check_combinations): siblings agree on refusals
+    from ..rules import siblings as R5S
+    from .. import tables as T
+    n_var = 0
+    for sk, info in sorted(T.SCHEMES.items()):
+        for chain_m in (("open", "batch_open", "open_combinations"), ("check", "batch_check", "check_combinations")):
+            chain = []
+            for m in chain_m:
+                b = f.find1(m, self_adt=info["adt"], trait=T.PC) or f.find1(m, in_trait=T.PC)
+                chain.append((m, b, info["adt"]))
+            n_var += R5S.run_chain(rep, ctx, sk, chain, "R5s")
+    rep.count("R5s variants compared", n_var)
+    if n_var < 40:
+        rep.add("R5s", "floor", False, "only %d refusal variants found along the sibling chains (counted 80; fail closed)" % n_var, None)
     # R5i: no verifier adds entries to the claimed-evaluations map it was handed (a missing claim must be refused)
     from ..rules import noinsert as R5I
     n_maps = 0
